@@ -617,3 +617,20 @@ func layoutJSON(b []byte, style string) []byte {
 	}
 	return out.Bytes()
 }
+
+// GenSeveralTimes generates the schema file n times in the calling process (default options, json tag only).
+func GenSeveralTimes(file string, n int) []string {
+	content, err := os.ReadFile(file)
+	if err != nil {
+		return []string{"ERR " + err.Error()}
+	}
+	cfg := core.DefaultCfg()
+	cfg.Tags = []string{"json"}
+	var outs []string
+	for i := 0; i < n; i++ {
+		dir, _ := os.MkdirTemp("", "gjstwice")
+		outs = append(outs, genSrc(dir, "schema.json", content, cfg, "urn:c12"))
+		_ = os.RemoveAll(dir)
+	}
+	return outs
+}
